@@ -643,7 +643,7 @@ impl Node {
     /// Hash everything that something derived from this node may refer to
     ///
     /// In addition to what [`Hash`] covers, this includes every span index in the node
-    /// and the index of every function it calls. If an assembly is passed, the same data
+    /// and the index and id of every function it calls. If an assembly is passed, the same data
     /// of the called functions' bodies is included as well.
     pub(crate) fn hash_deep(&self, asm: Option<&Assembly>, hasher: &mut impl Hasher) {
         fn recurse(
@@ -657,6 +657,8 @@ impl Node {
             }
             if let Node::Call(f, _) = node {
                 f.index.hash(hasher);
+                // The id ends up in error messages and traces
+                f.id.hash(hasher);
                 if let Some(body) = asm.and_then(|asm| asm.functions.get(f.index))
                     && !visited.contains(&f.index)
                 {
